@@ -799,6 +799,7 @@ func (fc *FnCtx) verify() {
 	if con != nil {
 		for _, cl := range con.Requires {
 			env := fc.specEnv(st, nil, vars, con.Pkg, fr, cl.Text)
+			env.assumeLocks = true
 			fc.sc.assume(env.evalBool(cl.Expr))
 		}
 		if con.HasMod && !con.ModAll {
